@@ -45,6 +45,13 @@ func genBreakerConfig(rt *rapid.T) (bcfg, *config.Config) {
 	}
 	c := bcfg{FT: rapid.IntRange(1, 3).Draw(rt, "ft"), ST: rapid.IntRange(1, 3).Draw(rt, "st"), MR: mr,
 		Interval: rapid.SampledFrom([]int{1, 5, 60}).Draw(rt, "interval"), Timeout: rapid.SampledFrom([]int{1, 5, 60}).Draw(rt, "timeout")}
+	if rapid.IntRange(0, 11).Draw(rt, "bigthresholds") == 0 {
+		// no upper limit is documented for the thresholds either: a success threshold in the hundreds with max_requests
+		// omitted (= success_threshold), equal or larger is an accepted configuration
+		c.ST = rapid.SampledFrom([]int{100, 101, 150, 300}).Draw(rt, "st_big")
+		c.MR = rapid.SampledFrom([]int{0, c.ST, c.ST + 7}).Draw(rt, "mr_big")
+		c.FT = rapid.SampledFrom([]int{1, 2, 3, 50}).Draw(rt, "ft_big")
+	}
 	cfg := lab.BaseConfig(rapid.SampledFrom(lab.Strategies).Draw(rt, "strategy"), lab.Ones(rapid.IntRange(1, 3).Draw(rt, "backends")))
 	cfg.CircuitBreaker = config.CircuitBreakerConfig{Enabled: true, MaxRequests: c.MR, IntervalSeconds: c.Interval, TimeoutSeconds: c.Timeout,
 		FailureThreshold: c.FT, SuccessThreshold: c.ST}
@@ -52,7 +59,7 @@ func genBreakerConfig(rt *rapid.T) (bcfg, *config.Config) {
 }
 
 func TestC08Liveness(t *testing.T) {
-	sub := lab.Sub("breaker-recovery-script", "rapid: breaker section (failure/success threshold 1-3, max_requests unset or 1-4, interval/timeout 1/5/60 s) accepted by the real config.Validate, balancer built the real way (OnStateChange callback installed), "+
+	sub := lab.Sub("breaker-recovery-script", "rapid: breaker section (failure/success threshold 1-3 - in one case of twelve success_threshold 100-300 with max_requests omitted, equal or above, failure_threshold up to 50 -, max_requests unset or 1-4 or huge, interval/timeout 1/5/60 s) accepted by the real config.Validate, balancer built the real way (OnStateChange callback installed), "+
 		"a drawn history of requests / backend behaviour changes (good, 5xx, unreachable, abort mid-body) / time advances brings the breaker into some state; then the bounded recovery script: all backends good, advance timeout+1ms, "+
 		"up to success_threshold+max_requests+2 requests (one extra advance if a trial failed), after which the breaker must be CLOSED and the next 3 requests all reach a backend; every call guarded by a 20 s no-progress watchdog; "+
 		"non-trivial = breaker open or half-open when the script starts")
